@@ -140,6 +140,23 @@ func (nb *nativeBuilder) runCases(pkgDir string, cases []NativeCase) (map[int]Na
 		}(c)
 	}
 	wg.Wait()
+	// a native timeout on a loaded machine is not evidence: re-run timed-out cases
+	// one at a time with three times the allowance before believing them
+	var slow []NativeCase
+	for _, c := range cases {
+		if res[c.ID].Outcome == "timeout" {
+			slow = append(slow, c)
+		}
+	}
+	if len(slow) <= 8 {
+		for _, c := range slow {
+			c2 := c
+			c2.TimeoutMs = c.TimeoutMs * 3
+			cf := filepath.Join(nb.outDir, fmt.Sprintf("case_%s_%d.json", c.Harness, c.ID))
+			writeJSON(cf, c2)
+			res[c.ID] = runOneCase(bin, filepath.Join(nb.cfg.Repo, pkgDir), cf, c2)
+		}
+	}
 	return res, nil
 }
 
